@@ -463,6 +463,14 @@ func genC12(t *rapid.T) C12Case {
 	}
 	for i := range c.ID {
 		c.ID[i] = uint16(rapid.IntRange(1, 0xffff).Draw(t, "id"))
+		// a field of an identifier may well be zero (version 0, bus 0 of a virtual device) or all ones: only the identifier
+		// whose four fields are all zero stands for "default"
+		if rapid.IntRange(0, 3).Draw(t, "idCorner") == 0 {
+			c.ID[i] = rapid.SampledFrom([]uint16{0, 0, 1, 0xffff, 0x8000}).Draw(t, "idCornerValue")
+		}
+	}
+	if c.ID == [4]uint16{} {
+		c.ID[1] = 0x46d
 	}
 	c.Query = c.ID
 	if rapid.IntRange(0, 2).Draw(t, "mismatch") == 0 {
